@@ -439,10 +439,13 @@ func TestVerifPool(t *testing.T) {
 				var buf []string
 				vmScenario(lines, func(s string) { buf = append(buf, s) }, nil, nil)
 				results[i] = buf
+				emit(i, buf) // at once: the output tells which scenario was running if the process dies
 			}
 		})
 	}()
 	for i, buf := range results {
-		emit(i, buf)
+		if len(buf) == 1 && strings.HasPrefix(buf[0], "PANIC ") {
+			emit(i, buf)
+		}
 	}
 }
